@@ -6,6 +6,7 @@ from hypothesis import strategies as st
 
 from harness.loader import load
 from harness.runner import Part
+from harness import build as B
 from harness import values as V
 from harness import relational as R
 from harness.refmodel import freeze, same
@@ -260,7 +261,7 @@ def run_compare(case, ctx):
     if _excluded(ka, kb):
         ctx.label("excluded_date_override")
         return
-    va = S.Vector(list(a))
+    va = B.vector(a)
     ops = CMP + (LOGIC if ka == "bool" and kb == "bool" else [])
     for name, op in ops:
         for form in ("vector", "list", "tuple", "scalar", "self", "scalar_none"):
